@@ -181,5 +181,26 @@ def branches():
     return out
 
 
+def scopes():
+    """names reused in disjoint sibling scopes: every use reads and writes the declaration lexically visible there, and an
+    uninitialised declaration starts from zero whatever an earlier sibling of the same name held"""
+    out = []
+    out.append(_t("export function f(int a) -> int { int r = 0; { int t = 7; r += t + a; } { int t; t = t + 1; r += t * 100; } return r; }", "sibling blocks, second uninitialised", ["scope", "decl"]))
+    out.append(_t("export function f(int a) -> int { int r = 0; { int t; t += a; r += t; } { int t = 5; r += t * 10; } { int t; r += t * 100; } return r; }", "three sibling blocks", ["scope", "decl"]))
+    out.append(_t("export function f(int n, int a) -> int { int r = 0; for (int i = 0; i < n; ++i) { if (i == a) { int t = 7; r += t; } else { int t; t = t + 1; r += t * 10; } } return r; }",
+                  "if/else siblings across loop iterations", ["scope", "decl", "loop"], {"n": (0, 3)}))
+    out.append(_t("export function f(int n, int a) -> int { int r = 0; for (int i = 0; i < n; ++i) { if (i != a) { int t; t = t + 1; r += t * 10; } else { int t = 7; r += t; } } return r; }",
+                  "if/else siblings across loop iterations, other order", ["scope", "decl", "loop"], {"n": (0, 3)}))
+    out.append(_t("export function f(float a, int b) -> float { float r = 0.0; { float t = a; r += t * 2.0; } { int t; t += b; r += t; } return r; }", "sibling blocks, different types", ["scope", "decl", "float"]))
+    out.append(_t("export function f(int a) -> int { int r = 0; { int[2] t; t[1] = a; r += t[1]; } { int[2] t; r += t[1] * 100 + t[0]; } return r; }", "sibling blocks, arrays", ["scope", "decl", "array"]))
+    out.append(_t("export function f(int n, int a) -> int { int r = 0; for (int i = 0; i < n; ++i) { r += i; } for (int i = a; i < n; ++i) { r += i * 10; } int k = 0; while (k < n) { int i; i += 1; r += i * 100; k++; } return r; }",
+                  "loop variables reused", ["scope", "decl", "loop"], {"n": (0, 3), "a": (0, 3)}))
+    out.append(_t("export function f(int a) -> int { int r = a; if (a > 0) { int t = a * 2; r = t; } if (a > 1) { int t; r = r + t; } return r; }", "sibling ifs", ["scope", "decl", "if"]))
+    out.append(_t("int g;\nfunction h(int x) -> int { int t = x + g; return t; }\nexport function f(int a) -> int { int t; int r = h(a); t += r; g = t; { int u = t; t = u + 1; } return t * 10 + h(1); }",
+                  "same names in caller and callee", ["scope", "decl", "call", "global"], small=True))
+    out.append(_t("export function f(int n) -> int { int r = 0; int k = 0; do { int t; t += k + 1; r += t; k++; } while (k < n) return r; }", "declaration in do body", ["scope", "decl", "loop", "do"], {"n": (0, 3)}))
+    return out
+
+
 def all_core():
-    return operators() + compound() + affix() + loops() + storage() + branches()
+    return operators() + compound() + affix() + loops() + storage() + branches() + scopes()
